@@ -14,12 +14,31 @@ class Item:
     pass
 
 
-def gen_items(rng, g_comb, g_sync, tg_comb, tg_sync, depth, hist, allow_fsm=True, n=None):
-    """returns a list of abstract items; expressions/targets are real amaranth values"""
+_fsm_counter = [0]
+
+
+def gen_items(rng, g_comb, g_sync, tg_comb, tg_sync, depth, hist, allow_fsm=True, n=None, in_fsm=None):
+    """returns a list of abstract items; expressions/targets are real amaranth values.
+    `in_fsm`: state names of the innermost enclosing FSM (then `m.next = …` items may be generated)"""
     items = []
     n = n if n is not None else rng.randint(1, 4)
     for _ in range(n):
         r = rng.random()
+        if in_fsm and rng.random() < 0.3:
+            items.append(("next", rng.choice(in_fsm)))
+            hist["next"] = hist.get("next", 0) + 1
+            continue
+        if allow_fsm and depth > 0 and rng.random() < 0.12:
+            _fsm_counter[0] += 1
+            fid = _fsm_counter[0]
+            names = rng.sample(["A", "B", "C", "D"], rng.randint(1, 4))
+            states = [(nm, gen_items(rng, g_comb, g_sync, tg_comb, tg_sync, depth - 1, hist, allow_fsm=depth > 1,
+                                     in_fsm=names)) for nm in names]
+            init = rng.choice(names) if rng.random() < 0.3 else None
+            og = [(Signal(name=f"og{fid}_{k}"), rng.choice(names)) for k in range(rng.randint(0, 2))]
+            items.append(("fsm", f"fsm{fid}", init, states, og))
+            hist["fsm"] = hist.get("fsm", 0) + 1
+            continue
         if depth <= 0 or r < 0.45:
             dom = rng.choice(["comb", "sync"])
             tg = tg_comb if dom == "comb" else tg_sync
@@ -39,8 +58,8 @@ def gen_items(rng, g_comb, g_sync, tg_comb, tg_sync, depth, hist, allow_fsm=True
                 c = g_comb.expr(rng.randint(0, 2))
                 if rng.random() < 0.15:
                     c = Const(rng.randint(0, 1), 1)           # constant conditions are kept rare but present
-                branches.append((c, gen_items(rng, g_comb, g_sync, tg_comb, tg_sync, depth - 1, hist)))
-            els = gen_items(rng, g_comb, g_sync, tg_comb, tg_sync, depth - 1, hist) if rng.random() < 0.5 else None
+                branches.append((c, gen_items(rng, g_comb, g_sync, tg_comb, tg_sync, depth - 1, hist, allow_fsm, in_fsm=in_fsm)))
+            els = gen_items(rng, g_comb, g_sync, tg_comb, tg_sync, depth - 1, hist, allow_fsm, in_fsm=in_fsm) if rng.random() < 0.5 else None
             items.append(("if", branches, els))
             hist[f"if{nb}{'e' if els is not None else ''}"] = hist.get(f"if{nb}{'e' if els is not None else ''}", 0) + 1
         else:
@@ -57,15 +76,28 @@ def gen_items(rng, g_comb, g_sync, tg_comb, tg_sync, depth, hist, allow_fsm=True
                     got_default = True
                 else:
                     pats = tuple(gen_expr.rand_pattern(rng, w) for _p in range(rng.randint(1, 3)))
-                cases.append((pats, gen_items(rng, g_comb, g_sync, tg_comb, tg_sync, depth - 1, hist)))
+                cases.append((pats, gen_items(rng, g_comb, g_sync, tg_comb, tg_sync, depth - 1, hist, allow_fsm, in_fsm=in_fsm)))
             items.append(("switch", test, cases))
             hist["switch"] = hist.get("switch", 0) + 1
     return items
 
 
-def build(m, items):
+def build(m, items, fsms=None):
+    """replay the program through the real DSL; `fsms` collects name -> FSM object"""
+    fsms = fsms if fsms is not None else {}
     for it in items:
-        if it[0] == "assign":
+        if it[0] == "next":
+            m.next = it[1]
+        elif it[0] == "fsm":
+            _, name, init, states, og = it
+            with m.FSM(init=init, name=name) as fsm:
+                for sname, body in states:
+                    with m.State(sname):
+                        build(m, body, fsms)
+            fsms[name] = fsm
+            for sig, sname in og:
+                m.d.comb += sig.eq(fsm.ongoing(sname))
+        elif it[0] == "assign":
             _, dom, t, rhs = it
             m.d[dom] += t.eq(rhs)
         elif it[0] == "if":
@@ -73,17 +105,18 @@ def build(m, items):
             for k, (c, body) in enumerate(branches):
                 ctxm = m.If(c) if k == 0 else m.Elif(c)
                 with ctxm:
-                    build(m, body)
+                    build(m, body, fsms)
             if els is not None:
                 with m.Else():
-                    build(m, els)
+                    build(m, els, fsms)
         elif it[0] == "switch":
             _, test, cases = it
             with m.Switch(test):
                 for pats, body in cases:
                     ctxm = m.Default() if pats is None else m.Case(*pats)
                     with ctxm:
-                        build(m, body)
+                        build(m, body, fsms)
+    return fsms
 
 
 def ser_upat(p):
@@ -92,26 +125,88 @@ def ser_upat(p):
     return f"(i {int(p)})"
 
 
-def ser_prog(items, dom, sigidx):
+def fsm_encoding(item):
+    """state encodings in order of first mention (State entry, then `m.next` in its body, then ongoing())"""
+    _, name, init, states, og = item
+    order = []
+
+    def mention(x):
+        if x not in order:
+            order.append(x)
+
+    def walk(items):
+        for it in items:
+            if it[0] == "next":
+                mention(it[1])
+            elif it[0] == "if":
+                for _c, body in it[1]:
+                    walk(body)
+                if it[2] is not None:
+                    walk(it[2])
+            elif it[0] == "switch":
+                for _p, body in it[2]:
+                    walk(body)
+            # a nested FSM's `m.next` binds to that FSM, not to this one
+    for sname, body in states:
+        mention(sname)
+        walk(body)
+    for _sig, sname in og:
+        mention(sname)
+    return {nm: k for k, nm in enumerate(order)}
+
+
+def fsm_items(items):
+    for it in items:
+        if it[0] == "fsm":
+            yield it
+            for _s, body in it[3]:
+                yield from fsm_items(body)
+        elif it[0] == "if":
+            for _c, body in it[1]:
+                yield from fsm_items(body)
+            if it[2] is not None:
+                yield from fsm_items(it[2])
+        elif it[0] == "switch":
+            for _p, body in it[2]:
+                yield from fsm_items(body)
+
+
+def ser_prog(items, dom, sigidx, fsm=None):
+    """`fsm`: (state signal, encoding) of the innermost enclosing FSM; FSM items are written as what the
+    property says they mean: a Switch over the state register, `m.next` an assignment of the encoding in
+    the FSM's domain, `ongoing()` a comparison."""
     out = []
     for it in items:
-        if it[0] == "assign":
+        if it[0] == "next":
+            if dom == "sync" and fsm is not None:
+                st, enc = fsm
+                out.append(f"(= (sig {sigidx[id(st)]}) (c {enc[it[1]]} {len(st)} u))")
+        elif it[0] == "fsm":
+            _, name, init, states, og = it
+            st = sigidx["fsm:" + name]
+            enc = fsm_encoding(it)
+            cs = " ".join(f"(((i {enc[sn]})) {ser_prog(body, dom, sigidx, (st, enc))})" for sn, body in states)
+            out.append(f"(sw (sig {sigidx[id(st)]}) {cs})")
+            if dom == "comb":
+                for sig, sname in og:
+                    out.append(f"(= (sig {sigidx[id(sig)]}) (== (sig {sigidx[id(st)]}) (c {enc[sname]} {max(1, enc[sname].bit_length())} u)))")
+        elif it[0] == "assign":
             _, d, t, rhs = it
             if d == dom:
                 out.append(f"(= {ser_value(t, sigidx)} {ser_value(rhs, sigidx)})")
         elif it[0] == "if":
             _, branches, els = it
-            bs = " ".join(f"({ser_value(c, sigidx)} {ser_prog(body, dom, sigidx)})" for c, body in branches)
-            e = f" (else {ser_prog(els, dom, sigidx)})" if els is not None else ""
+            bs = " ".join(f"({ser_value(c, sigidx)} {ser_prog(body, dom, sigidx, fsm)})" for c, body in branches)
+            e = f" (else {ser_prog(els, dom, sigidx, fsm)})" if els is not None else ""
             out.append(f"(if {bs}{e})")
         elif it[0] == "switch":
             _, test, cases = it
             cs = []
             for pats, body in cases:
                 if pats is None:
-                    cs.append(f"(default {ser_prog(body, dom, sigidx)})")
+                    cs.append(f"(default {ser_prog(body, dom, sigidx, fsm)})")
                 else:
-                    cs.append("((" + " ".join(ser_upat(p) for p in pats) + f") {ser_prog(body, dom, sigidx)})")
+                    cs.append("((" + " ".join(ser_upat(p) for p in pats) + f") {ser_prog(body, dom, sigidx, fsm)})")
             out.append(f"(sw {ser_value(test, sigidx)} {' '.join(cs)})")
     return " ".join(out)
 
